@@ -36,6 +36,16 @@ CLAIMS["C21"] = dict(
     note="RowIdTreeMap is checked against a heap-free BTreeMap model (<=3 fragments) and an interval-set RoaringBitmap model (<=3 intervals, whole u32 domain); RowIdMask against a set model of RowIdTreeMap.",
 )
 
+CLAIMS["C37"] = dict(
+    engine="kani-transplant",
+    technique="bounded symbolic execution of feature_flags.rs and version.rs with Kani+CBMC (all u64 flag words, all version variants / number pairs / short ASCII strings)",
+    text=("Decides for every u64 flag word that readers and writers refuse exactly the words carrying a bit outside the known flags, that the known "
+          "flags tile the bits below FLAG_UNKNOWN, that apply_feature_flags sets each flag iff its condition holds on an arbitrary manifest shape "
+          "(<=3 fragments) and rejects mixed row-id presence, and that LanceFileVersion names, numbers and aliases convert consistently. "
+          "All-inputs SAT verdicts fit because the code is pure bit/enum logic."),
+    note="Manifest is a structural model of the fields feature_flags.rs reads; to_lowercase is modelled on ASCII.",
+)
+
 _IO = "truth lives in async object-store/tokio orchestration (crash points, interleavings, listings); Kani/CBMC has no model of tokio or object_store and no pure kernel implies the statement"
 NOT_APPLICABLE.update({
     "C01": "commit atomicity over crash points: " + _IO,
@@ -64,5 +74,5 @@ NOT_APPLICABLE.update({
     "C42": "relocatability is a statement about every path written by every writer being relative; decided by I/O",
 })
 _PLANNED = "planned in DESIGN.md §5 but its check is not built yet, so it is not claimed"
-for _p in ["C09", "C15", "C17", "C19", "C20", "C26", "C27", "C28", "C29", "C30", "C32", "C33", "C34", "C35", "C36", "C37", "C41", "C43"]:
+for _p in ["C09", "C15", "C17", "C19", "C20", "C26", "C27", "C28", "C29", "C30", "C32", "C33", "C34", "C35", "C36", "C41", "C43"]:
     NOT_APPLICABLE.setdefault(_p, _PLANNED)
